@@ -462,8 +462,15 @@ def cache_coherent(fn, iters, tiers):
                mock.patch.object(actuator, 'to_tau', lambda sys_, act, q, qd: _Tok('to_tau', 'tau', {'act': act, 'q': q, 'qd': qd})),
                mock.patch.object(dynamics, 'forward', lambda sys_, state, tau: _Tok('dynamics.forward', 'qf_smooth', dict(snap(state), tau=tau))),
                mock.patch.object(constraint, 'force', lambda sys_, state: _Tok('constraint.force', 'qf_constraint', snap(state)))]
+    # the pipeline module may also hold direct references to the stage callees (`from ... import matrix_inv`): those are replaced as well
+    reals = {id(getattr(m_, a_)): (m_, a_) for m_, a_ in ((integrator, 'integrate'), (dynamics, 'transform_com'), (mass, 'matrix_inv'), (constraint, 'jacobian'), (kinematics, 'forward'),
+                                                           (actuator, 'to_tau'), (dynamics, 'forward'), (constraint, 'force'))}
+    direct = [(nm_, v_) for nm_, v_ in list(vars(pipeline).items()) if id(v_) in reals]
     for p in patches:
       p.start()
+    for nm_, v_ in direct:
+      m_, a_ = reals[id(v_)]
+      setattr(pipeline, nm_, getattr(m_, a_))
     try:
       if fn == 'step':
         s0 = State(**{f: _Tok('in', f, None) for f in fields})
@@ -471,9 +478,13 @@ def cache_coherent(fn, iters, tiers):
       else:
         with mock.patch.object(State, 'init', classmethod(lambda cls, q, qd, x, xd: State(**dict({f: _Tok('State.init', f, None) for f in fields}, q=q, qd=qd, x=x, xd=xd)))):
           out = pipeline.init(sys, _Tok('in', 'q', None), _Tok('in', 'qd', None))
+    except Exception as e:      # noqa: BLE001  -- the body computes on stage results directly (not a pure composition of stages): outside this obligation's reach, not a verdict
+      return Result(UNDECIDED, 'pipeline.%s does more than compose its stage functions (%s: %s); provenance cannot be followed' % (fn, type(e).__name__, str(e)[:120]))
     finally:
       for p in patches:
         p.stop()
+      for nm_, v_ in direct:
+        setattr(pipeline, nm_, v_)
     bad = []
     P, K, T = ['q', 'qd'], ['x', 'xd'], frame['transform_com']
     for f in K:
